@@ -1,9 +1,9 @@
-(* C17 - the path-syntax parser is total and protocol-safe.
+(* C17 - the path-syntax parser is total and protocol-safe, and parses printed paths back.
    Quantified over ALL strings (lists of code points), ALL attribute counts, stop characters,
    ALL instantiations of the number type / arithmetic / text->number conversion / Unicode
    character classes, ALL arc-oracle streams and ANY attribute buffer left behind by a previous
    use of the parser object. *)
-From LV Require Import Base.Prelude Model.Parser Proofs.C17_Parser.
+From LV Require Import Base.Prelude Model.Parser Model.Printer Proofs.C17_Parser Proofs.C17_RoundTrip.
 Open Scope Z_scope.
 
 Section C17.
@@ -54,6 +54,33 @@ Theorem C17_buffer_independent : forall attr0 attr0' oracles text,
   run attr0 oracles text = run attr0' oracles text.
 Proof. exact (buffer_independent F fzero fone fadd fsub fmul parse_f32 is_ws is_num n_attr stop_at). Qed.
 
+(* ---------------------------------------------------------------- round trip
+   Printing any stored path (Model/Printer.v: the Debug printer of PathSlice, quotes stripped; the
+   path is given by the builder calls that re-create it, custom attributes included) and parsing
+   the text back yields exactly those calls and no error - for EVERY well-nested call sequence
+   whose attribute lists have the parser's attribute count, every text->number conversion and
+   every number printer [fmt], provided each number that occurs survives on its own:
+   its text has the shape the number lexer consumes (num_shape: [-] digits [. digits]
+   [(e|E) [-] digits]) and converts back to it.  Both facts are validated for Rust's {:?} of f32
+   on every run (all finite f32 bit patterns sampled; NaN and the infinities print as words and
+   are excluded by the hypothesis).  Hypotheses on the character classes: ASCII characters are
+   numeric exactly when they are digits, the space is white space and no other printable ASCII
+   character is (true of char::is_numeric / char::is_whitespace); the stop character, if any, is
+   not one of the letters the printer emits. *)
+Variable fmt : F -> list Z.
+
+Definition C17_num_ok (v : F) : Prop := num_shape (fmt v) = true /\ parse_f32 (fmt v) = Some v.
+Definition C17_call_ok (c : pcall F) : Prop :=
+  Forall C17_num_ok (call_nums F c) /\ (forall n, call_attrs_len F c = Some n -> n = n_attr).
+
+Theorem C17_print_parse_roundtrip :
+  (forall c, 0 <= c < 128 -> is_num c = is_digit c) ->
+  is_ws 32 = true -> (forall c, 33 <= c < 128 -> is_ws c = false) ->
+  (forall c, stop_at = Some c -> ~ In c [77; 76; 81; 67; 90]) ->
+  forall calls, pnested F false calls = true -> Forall C17_call_ok calls ->
+  forall attr0 oracles, run attr0 oracles (print F fmt calls) = (calls, None).
+Proof. exact (print_parse_roundtrip F fzero fone fadd fsub fmul parse_f32 is_ws is_num n_attr stop_at fmt). Qed.
+
 End C17.
 
 (* the (line, column) carried by a Source is the position of its current character: after k
@@ -70,6 +97,22 @@ Example C17_example_total :
                        (fun c => c =? 32) (fun c => (48 <=? c) && (c <=? 57)) 0 None [] [] [77; 49; 32; 50; 76]) = Some e.
 Proof. vm_compute. eexists; reflexivity. Qed.
 
+(* non-vacuity of the round trip: numbers are their own texts; three sub-paths (closed, open, a
+   lone move-to), one attribute, texts "-1.5", "1e-7", "0" *)
+Example C17_example_roundtrip :
+  let T := list Z in
+  let n1 : T := [45; 49; 46; 53] in let n2 : T := [49; 101; 45; 55] in let n3 : T := [48] in
+  let calls : list (pcall T) :=
+    [PBegin _ (n1, n2) [n3]; PLine _ (n2, n2) [n1]; PQuad _ (n1, n1) (n3, n3) [n2]; PEnd _ true;
+     PBegin _ (n1, n2) [n3]; PCubic _ (n1, n1) (n2, n2) (n3, n3) [n3]; PEnd _ false;
+     PBegin _ (n3, n3) [n3]; PEnd _ false] in
+  forallb (fun c => forallb num_shape (call_nums T c)) calls = true /\
+  parse T [48] [49] (fun a _ => a) (fun a _ => a) (fun a _ => a) (fun b => Some b)
+        (fun c => c =? 32) (fun c => (48 <=? c) && (c <=? 57)) 1 None [] [] (print T (fun x => x) calls)
+  = (calls, None).
+Proof. vm_compute. split; reflexivity. Qed.
+
+Print Assumptions C17_print_parse_roundtrip.
 Print Assumptions C17_parse_total.
 Print Assumptions C17_parse_no_panic.
 Print Assumptions C17_parse_protocol.
